@@ -42,8 +42,8 @@ var lgTable = []lgEntry{
 	{Rule: "L1", Func: "tensor.ToMat64", Site: "copy(%data, $t.Float64s())", Goal: "!$t.IsMaterializable()", Props: []string{"C04", "C14"}, Why: "raw export of a view/lazy transpose emits storage order, not logical order"},
 	{Rule: "L1", Func: "tensor.ToMat64", Site: "convToFloat64s($t)", Goal: "!$t.IsMaterializable()", Props: []string{"C04", "C14"}, Why: "raw export of a view/lazy transpose emits storage order, not logical order"},
 	{Rule: "L4", Func: "tensor.ToMat64", Site: "copy(%data, $t.Float64s())", Goal: "!$t.DataOrder().IsColMajor()", Props: []string{"C16"}, Why: "mat.Dense is row-major: only a row-major tensor may hand over its backing array as it is (the iterator branch handles every order)"},
-	{Rule: "L4", Func: "tensor.ToMat64", Site: "convToFloat64s($t)", Goal: "!$t.DataOrder().IsColMajor()", Props: []string{"C16"}, Why: "mat.Dense is row-major: only a row-major tensor may hand over its backing array as it is"},
-	{Rule: "L1", Func: "tensor.copyDenseIter", Site: "copyDense($dst, $src)", Goal: "((!$dst.RequiresIterator() && !$src.RequiresIterator()) && $dst.DataOrder().HasSameOrder($src.DataOrder()))", Props: []string{"C04", "C16", "C02"}, Why: "the raw memcpy inside the iterator copy is only the logical copy when neither side needs an iterator and both have the same data order"},
+	{Rule: "L4", Func: "tensor.ToMat64", Site: "convToFloat64s($t", Goal: "(!$t.DataOrder().IsColMajor() || $t.IsMaterializable())", Props: []string{"C16"}, Why: "mat.Dense is row-major: only a row-major tensor may hand over its backing array as it is - directly (where L1 already demands that it is not materializable) or through Materialize(), which is the identity on a tensor that is neither a view nor lazily transposed: a contiguous column-major tensor comes back as it is"},
+	{Rule: "L1", Func: "tensor.copyDenseIter", Site: "copyDense($dst, $src)", Goal: "((!$dst.RequiresIterator() && !$src.RequiresIterator()) && $dst.DataOrder().HasSameOrder($src.DataOrder()))", Props: []string{"C04", "C16", "C02", "C10"}, Why: "the raw memcpy inside the iterator copy is only the logical copy when neither side needs an iterator and both have the same data order"},
 	{Rule: "L1", Func: "tensor.handleFuncOpts", Site: "return ", NotAfter: "= errors.", Goal: "(!$ret2 || !(($expShape.TotalSize() != $ret0.len()) && !$expShape.IsScalar()))", Props: []string{"C04", "C07"}, Why: "a reuse/incr destination is accepted only if its storage length equals the result size (a strided view, whose storage is longer than its element count, is refused)"},
 	{Rule: "L1", Func: "tensor.handleFuncOptsF32", Site: "return ", NotAfter: "= errors.", Goal: "(!$ret2 || !(($expShape.TotalSize() != $ret0.len()) && !$expShape.IsScalar()))", Props: []string{"C04", "C07", "C20"}, Why: "a reuse/incr destination is accepted only if its storage length equals the result size"},
 	{Rule: "L1", Func: "tensor.handleFuncOptsF64", Site: "return ", NotAfter: "= errors.", Goal: "(!$ret2 || !(($expShape.TotalSize() != $ret0.len()) && !$expShape.IsScalar()))", Props: []string{"C04", "C07", "C20"}, Why: "a reuse/incr destination is accepted only if its storage length equals the result size"},
